@@ -160,6 +160,12 @@ def _run(prop, reg, tier, seed, work, known, t0, replay):
     gen_scen = 0
     leg_summ = []
     legs = reg["legs_fn"](tier) if "legs_fn" in reg else reg["legs"]
+    if tier == "thorough" or (replay and str(replay.get("leg", "")).startswith("tcp-")):      # TCP legs (real transport stack against harness/tctcp), see vlib/tcp_legs.py
+        try:
+            from .tcp_legs import TCP_LEGS
+            legs = list(legs) + TCP_LEGS.get(prop, [])
+        except ImportError:
+            pass
     for lspec in legs:
         if replay and lspec["name"] != replay["leg"]:
             continue
